@@ -114,11 +114,16 @@ fn source_case(seed: u64, i: u64) -> CaseOut {
         if m.chars().any(|c| c.is_ascii_uppercase()) {
             out.class("ext_mixed_case");
         }
-        let t = match rng.below(4) {
+        let t = match rng.below(8) {
             0 => format!("{} add r0 r0 #1\nhalt\n", m),
             1 => format!("{}: .fill x1\nhalt\n", m),
             2 => format!("br {}\n{} halt\n", m, m),
-            _ => format!("lea r0 {}\nhalt\n{} .stringz \"x\"\n", m, m),
+            3 => format!("lea r0 {}\nhalt\n{} .stringz \"x\"\n", m, m),
+            // ... where the operand of a directive is expected (a forgotten count, a label-like value)
+            4 => format!("halt\nbuf .blkw\n{} r0\n", m),
+            5 => format!("halt\n.fill {}\n", m),
+            6 => format!("halt\nval .fill\n{}\n", m),
+            _ => format!(".orig {}\nhalt\n", m),
         };
         (t, true, None, true)
     } else {
